@@ -81,6 +81,14 @@ def main():
     import sqllineage  # noqa: F401  (fail early)
     import sqllineage.runner  # noqa: F401
 
+    # site's exit()/quit() close sys.stdin before raising SystemExit, which would end this worker's protocol when
+    # library code calls exit(); keep the SystemExit, drop the close
+    import builtins
+
+    def _exit(code=None):
+        raise SystemExit(code)
+
+    builtins.exit = builtins.quit = _exit
     real_stdout = sys.stdout
     sys.stdout = io.StringIO()  # library prints must not corrupt the protocol
     real_stdout.write(json.dumps({"ready": True, "file": sqllineage.__file__}) + "\n")
